@@ -127,7 +127,7 @@ func verifC09AfterRecovery(eng *Engine, path string, h *verifC09History, p int) 
 // a clean close+reopen leaves every channel's dump unchanged — the premise of
 // the crash oracle (dumps are a function of durable state only).
 func TestVerifC09Clean(t *testing.T) {
-	maxSteps := kit.Scale("C09_CLEAN_STEPS", 30, 60)
+	maxSteps := kit.Scale("C09_CLEAN_STEPS", 40, 70)
 	kit.Check(t, "C09", func(rt *rapid.T, k *kit.Case) {
 		dir, clean := kit.TempDir()
 		defer clean()
@@ -137,7 +137,7 @@ func TestVerifC09Clean(t *testing.T) {
 			o.FS = mem
 		}
 		defer func() { engine.VerifPebbleOptions = nil }()
-		h := verifC09GenHistory(rt, 4, maxSteps, 10)
+		h := verifC09GenHistory(rt, 4, maxSteps, 6)
 		path := filepath.Join(dir, "msg")
 		eng, err := verifC09OpenEngine(path, nil)
 		if err != nil {
@@ -192,16 +192,24 @@ func TestVerifC09Clean(t *testing.T) {
 
 // ------------------------------------------------------ (a) power loss ----
 
+// verifC09Image is one simulated power loss: the crash clone taken right
+// before durability FS call #Call of the crash step.
+type verifC09Image struct {
+	Call int
+	Pct  int
+	FS   *vfs.MemFS
+}
+
 type verifC09CrashCtl struct {
-	mu        sync.Mutex
-	mem       *vfs.MemFS
-	cfg       vfs.CrashCloneCfg
-	armed     bool
-	remaining int
-	seen      int
-	fired     bool
-	inside    bool
-	clone     *vfs.MemFS
+	mu     sync.Mutex
+	mem    *vfs.MemFS
+	armed  bool
+	calls  int
+	first  int
+	stride int
+	pcts   []int
+	seeds  []uint64
+	images []verifC09Image
 }
 
 func verifC09Durability(k errorfs.OpKind) bool {
@@ -213,44 +221,59 @@ func verifC09Durability(k errorfs.OpKind) bool {
 	return false
 }
 
-// onOp only counts, it never injects an error; at the armed count the crash
-// clone is taken before the FS call is performed.
+// onOp only counts, it never injects an error. While armed it takes a crash
+// clone before the generated durability FS calls of the step (every call for
+// short steps, a generated stride for long ones).
 func (c *verifC09CrashCtl) onOp(op errorfs.Op) error {
 	if !verifC09Durability(op.Kind) {
 		return nil
 	}
 	c.mu.Lock()
 	defer c.mu.Unlock()
-	if !c.armed || c.fired {
+	if !c.armed {
 		return nil
 	}
-	if c.remaining == 0 {
-		c.fire(true)
-		return nil
+	n := c.calls
+	c.calls++
+	if n >= c.first && (n-c.first)%c.stride == 0 && len(c.images) < len(c.pcts) {
+		i := len(c.images)
+		c.images = append(c.images, verifC09Image{Call: n, Pct: c.pcts[i],
+			FS: c.mem.CrashClone(vfs.CrashCloneCfg{UnsyncedDataPercent: c.pcts[i], RNG: rand.New(rand.NewPCG(c.seeds[i], 9))})})
 	}
-	c.remaining--
-	c.seen++
 	return nil
 }
 
-func (c *verifC09CrashCtl) fire(inside bool) {
-	c.clone = c.mem.CrashClone(c.cfg)
-	c.fired = true
-	c.inside = inside
-}
-
 // TestVerifC09PowerLoss: the history runs on Pebble's CrashableMem (through
-// engine.VerifPebbleOptions); at a generated durability FS call inside (or at
-// the boundary of) a generated step power is lost and 0/50/100 % of the
-// unsynced blocks survive; the store is reopened on the crash image.
+// engine.VerifPebbleOptions). Inside one generated step a crash image is taken
+// before each (generated subset of the) durability FS calls of that step, each
+// keeping 0/50/100 % of the unsynced blocks, plus one image right after the
+// step was acknowledged keeping nothing unsynced. The store is reopened on
+// every image and judged by the prefix oracle.
 func TestVerifC09PowerLoss(t *testing.T) {
-	maxSteps := kit.Scale("C09_CRASH_STEPS", 28, 50)
+	maxSteps := kit.Scale("C09_CRASH_STEPS", 40, 60)
+	col := kit.For(t, "C09")
 	kit.Check(t, "C09", func(rt *rapid.T, k *kit.Case) {
 		dir, clean := kit.TempDir()
 		defer clean()
-		h := verifC09GenHistory(rt, 4, maxSteps, 6)
-		j := rapid.IntRange(0, len(h.Steps)-1).Draw(rt, "crashStep")
-		if rapid.IntRange(0, 7).Draw(rt, "preferMutation") > 0 {
+		h := verifC09GenHistory(rt, 8, maxSteps, 5)
+		j := len(h.Steps) - 1 - rapid.IntRange(0, len(h.Steps)-1).Draw(rt, "crashStepFromEnd")
+		switch pm := rapid.IntRange(0, 9).Draw(rt, "preferKind"); {
+		case pm >= 3:
+			// most crash steps are of the less frequent mutation kinds
+			want := rapid.SampledFrom([]string{"trim", "trim", "trim", "truncate", "truncate", "truncate", "replace", "replace", "checkpoint", "adopt", "adopt",
+				"discard", "applyfetch", "legacy", "epoch", "par"}).Draw(rt, "crashKind")
+			found := false
+			for d := 0; d < len(h.Steps) && !found; d++ {
+				if c := (j + d) % len(h.Steps); h.Steps[c].Kind == want {
+					j, found = c, true
+				}
+			}
+			for d := 0; d < len(h.Steps) && !found; d++ {
+				if c := (j + d) % len(h.Steps); h.Steps[c].Kind != "reopen" {
+					j, found = c, true
+				}
+			}
+		case pm >= 1:
 			for d := 0; d < len(h.Steps); d++ {
 				if c := (j + d) % len(h.Steps); h.Steps[c].Kind != "reopen" {
 					j = c
@@ -258,19 +281,33 @@ func TestVerifC09PowerLoss(t *testing.T) {
 				}
 			}
 		}
-		var r int
-		if h.Steps[j].Kind == "reopen" {
-			r = rapid.IntRange(0, 40).Draw(rt, "crashCall")
-		} else {
-			// a small commit is one WAL write + one WAL sync; big ones and the
-			// paged discard have more
-			r = rapid.SampledFrom([]int{0, 1, 1, 1, 1, 1, 1, 1, 2, 2, 3, 4, 6}).Draw(rt, "crashCall")
+		isMutation := h.Steps[j].Kind != "reopen"
+		const maxImages = 6
+		ctl := &verifC09CrashCtl{stride: 1}
+		if !isMutation {
+			ctl.stride = rapid.IntRange(3, 9).Draw(rt, "stride")
+			ctl.first = rapid.IntRange(0, ctl.stride-1).Draw(rt, "first")
+		} else if rapid.IntRange(0, 5).Draw(rt, "skipFirst") == 0 {
+			ctl.first = rapid.IntRange(1, 3).Draw(rt, "first")
 		}
-		pct := rapid.SampledFrom([]int{0, 0, 50, 50, 100}).Draw(rt, "unsyncedPercent")
-		seed := rapid.Uint64().Draw(rt, "cloneSeed")
+		for i := 0; i < maxImages; i++ {
+			pct := rapid.SampledFrom([]int{0, 0, 50, 50, 100}).Draw(rt, "unsyncedPercent")
+			if !isMutation && pct == 50 {
+				// Fault-model limit: Pebble's own Open creates the new MANIFEST and
+				// its marker file and syncs the directory once afterwards; a crash
+				// image that keeps an arbitrary subset of those unsynced directory
+				// entries (marker without MANIFEST) makes pebble.Open itself fail.
+				// Journaling file systems persist directory entries in order, so
+				// inside close+reopen only "none" or "all" unsynced data is kept.
+				pct = rapid.SampledFrom([]int{0, 100}).Draw(rt, "unsyncedPercentReopen")
+			}
+			ctl.pcts = append(ctl.pcts, pct)
+			ctl.seeds = append(ctl.seeds, rapid.Uint64().Draw(rt, "cloneSeed"))
+		}
+		contImage := rapid.IntRange(0, maxImages-1).Draw(rt, "continueOnImage")
 
 		mem := vfs.NewCrashableMem()
-		ctl := &verifC09CrashCtl{mem: mem, cfg: vfs.CrashCloneCfg{UnsyncedDataPercent: pct, RNG: rand.New(rand.NewPCG(seed, 9))}}
+		ctl.mem = mem
 		var fs vfs.FS = errorfs.Wrap(mem, errorfs.InjectorFunc(ctl.onOp))
 		engine.VerifPebbleOptions = func(o *pebble.Options) {
 			o.Logger = verifC09QuietLogger{}
@@ -302,7 +339,7 @@ func TestVerifC09PowerLoss(t *testing.T) {
 			rt.Fatalf("before the crash step %d: %s\nhistory:\n%s", j, s, h.trace(j))
 		}
 		ctl.mu.Lock()
-		ctl.armed, ctl.remaining = true, r
+		ctl.armed = true
 		ctl.mu.Unlock()
 		var s string
 		eng, s = verifC09RunStep(eng, path, h, j)
@@ -310,11 +347,12 @@ func TestVerifC09PowerLoss(t *testing.T) {
 			rt.Fatalf("%s\nhistory:\n%s", s, h.trace(j+1))
 		}
 		ctl.mu.Lock()
-		if !ctl.fired {
-			ctl.fire(false)
-		}
-		inside, seen, clone := ctl.inside, ctl.seen, ctl.clone
+		ctl.armed = false
+		images, calls := ctl.images, ctl.calls
 		ctl.mu.Unlock()
+		// last image: power lost right after the step was acknowledged, nothing
+		// unsynced survives — the acknowledged step must be in it
+		ackClone := mem.CrashClone(vfs.CrashCloneCfg{})
 		post, err := verifC09DumpAll(eng, h)
 		if err != nil {
 			rt.Fatalf("dump: %v", err)
@@ -325,67 +363,113 @@ func TestVerifC09PowerLoss(t *testing.T) {
 		_ = eng.Close()
 		eng = nil
 
-		// power is back
-		fs = clone
-		where := fmt.Sprintf("power loss at step %d (%s), before durability FS call #%d of the step (inside=%v), %d%% unsynced kept", j, h.Steps[j].String(), seen, inside, pct)
-		eng, err = verifC09OpenEngine(path, nil)
-		if err != nil {
-			eng = nil
-			rt.Fatalf("%s: store does not open: %v\nhistory:\n%s", where, err, h.trace(j+1))
-		}
-		rec, err := verifC09DumpAll(eng, h)
-		if err != nil {
-			rt.Fatalf("%s: dump of the recovered store: %v", where, err)
-		}
-		var p int
-		if inside {
-			p, s = verifC09Judge(h, j, pre, post, rec)
-		} else {
-			p, s = verifC09Judge(h, j+1, post, nil, rec)
-		}
-		if s != "" {
-			rt.Fatalf("%s: %s\nhistory:\n%s", where, s, h.trace(j+1))
-		}
-		if p == -2 {
-			// interrupted paged cleanup: the documented recovery is to run it again
-			if s := verifC09Exec(eng, h.Chans, &h.Steps[j]); s != "" {
-				rt.Fatalf("%s: retry of the interrupted discard: %s", where, s)
-			}
-			again, err := verifC09DumpAll(eng, h)
+		reopenOn := func(img *vfs.MemFS, where string) []string {
+			fs = img
+			var err error
+			eng, err = verifC09OpenEngine(path, nil)
 			if err != nil {
-				rt.Fatalf("dump: %v", err)
+				eng = nil
+				rt.Fatalf("%s: store does not open: %v\nhistory:\n%s", where, err, h.trace(j+1))
 			}
-			for ci := range again {
-				if again[ci] != post[ci] {
-					rt.Fatalf("%s: retried discard does not converge on channel %s: %s\nhistory:\n%s", where, h.Chans[ci].Key, verifC09DiffLine(again[ci], post[ci]), h.trace(j+1))
-				}
+			rec, err := verifC09DumpAll(eng, h)
+			if err != nil {
+				rt.Fatalf("%s: dump of the recovered store: %v", where, err)
 			}
-			p = j + 1
+			return rec
 		}
-		if p >= 0 {
-			eng, s = verifC09AfterRecovery(eng, path, h, p)
-			if s != "" {
-				rt.Fatalf("%s: %s\nhistory:\n%s", where, s, h.trace(len(h.Steps)))
+		closeEng := func() {
+			if eng != nil {
+				_ = eng.Close()
+				eng = nil
 			}
 		}
 
-		isMutation := h.Steps[j].Kind != "reopen"
-		strict := inside && seen >= 1 && isMutation
+		where := fmt.Sprintf("power loss right after step %d (%s) was acknowledged (no unsynced data kept)", j, h.Steps[j].String())
+		ackRec := reopenOn(ackClone, where)
+		if _, s := verifC09Judge(h, j+1, post, nil, ackRec); s != "" {
+			rt.Fatalf("%s: %s\nhistory:\n%s", where, s, h.trace(j+1))
+		}
+		if len(images) == 0 {
+			// the step made no durability FS call: continue from the acknowledged image
+			if eng, s = verifC09AfterRecovery(eng, path, h, j+1); s != "" {
+				rt.Fatalf("%s: %s\nhistory:\n%s", where, s, h.trace(len(h.Steps)))
+			}
+		}
+		closeEng()
+
+		strict, survived, lost, mixed, partialDiscard := 0, 0, 0, 0, 0
+		for ii, img := range images {
+			where := fmt.Sprintf("power loss at step %d (%s) before durability FS call #%d of %d, %d%% unsynced kept", j, h.Steps[j].String(), img.Call, calls, img.Pct)
+			rec := reopenOn(img.FS, where)
+			p, s := verifC09Judge(h, j, pre, post, rec)
+			if s != "" {
+				rt.Fatalf("%s: %s\nhistory:\n%s", where, s, h.trace(j+1))
+			}
+			if isMutation && img.Call >= 1 {
+				strict++
+			}
+			switch p {
+			case j + 1:
+				survived++
+			case j:
+				lost++
+			case -1:
+				mixed++
+			case -2:
+				partialDiscard++
+				// interrupted paged cleanup: the documented recovery is to run it again
+				if s := verifC09Exec(eng, h.Chans, &h.Steps[j]); s != "" {
+					rt.Fatalf("%s: retry of the interrupted discard: %s", where, s)
+				}
+				again, err := verifC09DumpAll(eng, h)
+				if err != nil {
+					rt.Fatalf("dump: %v", err)
+				}
+				for ci := range again {
+					if again[ci] != post[ci] {
+						rt.Fatalf("%s: retried discard does not converge on channel %s: %s\nhistory:\n%s", where, h.Chans[ci].Key, verifC09DiffLine(again[ci], post[ci]), h.trace(j+1))
+					}
+				}
+				p = j + 1
+			}
+			if p >= 0 && ii == contImage%len(images) {
+				if eng, s = verifC09AfterRecovery(eng, path, h, p); s != "" {
+					rt.Fatalf("%s: %s\nhistory:\n%s", where, s, h.trace(len(h.Steps)))
+				}
+			}
+			closeEng()
+		}
+		col.AddExtra("powerloss_crash_images", int64(len(images)+1))
+		col.AddExtra("powerloss_images_strictly_inside_mutation", int64(strict))
+
 		kind := h.Steps[j].Kind
-		k.Key("powerloss", j, r, pct, h.trace(len(h.Steps)))
-		k.SetNonTrivial(strict)
-		k.LabelIf(strict, "powerloss: crash strictly inside a mutation (after its first FS write, before the ack)")
-		k.LabelIf(strict, "powerloss: inside "+kind)
-		k.LabelIf(inside && seen == 0 && isMutation, "powerloss: crash at the first FS call of a mutation")
-		k.LabelIf(!inside, "powerloss: crash between steps")
-		k.LabelIf(!isMutation && inside, "powerloss: crash inside close+reopen")
-		k.LabelIf(strict && p == j+1, "powerloss: in-flight mutation survived")
-		k.LabelIf(strict && p == j, "powerloss: in-flight mutation lost")
-		k.LabelIf(strict && len(h.Steps[j].channels()) > 1 && kind != "par", "powerloss: inside a multi-channel single commit")
+		k.Key("powerloss", j, ctl.first, ctl.stride, fmt.Sprint(ctl.pcts), h.trace(len(h.Steps)))
+		k.SetNonTrivial(strict > 0)
+		k.LabelIf(strict > 0, "powerloss: crash images strictly inside a mutation (after its first FS write, before the ack)")
+		k.LabelIf(strict > 0, "powerloss: inside "+kind)
+		k.LabelIf(strict > 2, "powerloss: step with more than 3 durability FS calls")
+		k.LabelIf(len(images) == 0, "powerloss: step without durability FS call")
+		k.LabelIf(!isMutation, "powerloss: crash inside close+reopen")
+		k.LabelIf(survived > 0 && isMutation, "powerloss: in-flight mutation survived")
+		k.LabelIf(lost > 0 && isMutation, "powerloss: in-flight mutation lost")
+		if kind == "truncate" || kind == "replace" {
+			pc, qc := h.States[j][h.Steps[j].Ch], h.States[j+1][h.Steps[j].Ch]
+			k.LabelIf(qc.LEO < pc.LEO, "powerloss: inside a truncation/replacement that removes rows")
+			k.LabelIf(qc.LEO < pc.LEO && pc.Adopted > 0, "powerloss: inside a truncation/replacement below a retained log end")
+			k.LabelIf(len(qc.Points) < len(pc.Points), "powerloss: inside a truncation/replacement that removes epoch history")
+		}
+		k.LabelIf(mixed > 0, "powerloss: concurrent calls recovered independently")
+		k.LabelIf(partialDiscard > 0, "powerloss: paged discard interrupted between batches, retried")
+		k.LabelIf(strict > 0 && len(h.Steps[j].channels()) > 1 && kind != "par", "powerloss: inside a multi-channel single commit")
 		k.LabelIf(h.kindBefore(j, "trim") && h.kindBefore(j, "truncate"), "powerloss: retention trim and truncation before the crash")
-		k.Label(fmt.Sprintf("powerloss: unsynced kept %d%%", pct))
 		k.Sample(func() any {
-			return fmt.Sprintf("crash step %d/%d (%s) FS call %d inside=%v pct=%d recovered prefix %d", j, len(h.Steps), h.Steps[j].String(), seen, inside, pct, p)
+			return fmt.Sprintf("crash step %d/%d (%s): %d durability FS calls, images before calls %v, survived %d lost %d", j, len(h.Steps), h.Steps[j].String(), calls, func() []int {
+				var c []int
+				for _, im := range images {
+					c = append(c, im.Call)
+				}
+				return c
+			}(), survived, lost)
 		})
 	})
 }
@@ -527,14 +611,16 @@ func TestVerifC09Kill(t *testing.T) {
 			strace = ""
 		}
 	}
+	// the per-thread syscall window is re-centred from what the kills hit
+	offset, span := base, perStep*15/10+1
 	kit.Check(t, "C09", func(rt *rapid.T, k *kit.Case) {
 		dir, clean := kit.TempDir()
 		defer clean()
 		h := verifC09GenHistory(rt, 3, maxSteps, 3)
 		path := filepath.Join(dir, "msg")
-		useStrace := strace != "" && rapid.Bool().Draw(rt, "killByStrace")
+		useStrace := strace != "" && rapid.IntRange(0, 4).Draw(rt, "killByStrace") < 2
 		frac := rapid.IntRange(0, 1000).Draw(rt, "killSyscallFrac")
-		when := base*9/10 + frac*(base*1/10+perStep*len(h.Steps)*15/10+1)/1000
+		when := offset + frac*span*len(h.Steps)/1000
 		if when < 1 {
 			when = 1
 		}
@@ -701,6 +787,14 @@ func TestVerifC09Kill(t *testing.T) {
 		}
 		inside := issued == acked+1
 		isMutation := inside && h.Steps[acked].Kind != "reopen"
+		if useStrace {
+			switch {
+			case !done && issued == 0:
+				offset += offset/8 + 2
+			case done && span > 2:
+				span -= span/6 + 1
+			}
+		}
 		k.Key("kill", useStrace, when, afterLines, h.trace(len(h.Steps)))
 		k.SetNonTrivial(isMutation)
 		k.LabelIf(isMutation, "kill: process died inside a mutation (issued, not acknowledged)")
